@@ -39,6 +39,7 @@ class WdSim(simncp.SimNcp):
     def __init__(self, loop, version):
         super().__init__(loop, version)
         self.mode = "ok"
+        self.nvals = 3  # how many counters the NCP reports (firmware may know fewer or more than the host's table)
 
     def _react(self, which, ok_fields):
         m = self.mode
@@ -55,10 +56,10 @@ class WdSim(simncp.SimNcp):
         return self._wrap(self._react("nop", {}))
 
     def cmd_readCounters(self):
-        return self._wrap(self._react("counters", {"values": [1, 2, 3]}))
+        return self._wrap(self._react("counters", {"values": [(7 * i + 1) & 0xFFFF for i in range(self.nvals)]}))
 
     def cmd_readAndClearCounters(self):
-        return self._wrap(self._react("counters", {"values": [4, 5, 6]}))
+        return self._wrap(self._react("counters", {"values": [(5 * i + 4) & 0xFFFF for i in range(self.nvals)]}))
 
     def cmd_getValue(self, valueId):
         if self.mode == "ok:badstatus@buffers":
@@ -85,6 +86,7 @@ async def scenario(loop, plan, r):
         import bellows.ezsp as e
 
         sim = WdSim(loop, v)
+        sim.nvals = plan.get("nvals", 3)
         ezsp = e.EZSP({"path": "/dev/null"})
         sim.attach(ezsp)
         ezsp._switch_protocol_version(v)
@@ -136,6 +138,7 @@ async def scenario(loop, plan, r):
                 v = switch[k]
                 if v not in sims:
                     sims[v] = WdSim(loop, v)
+                    sims[v].nvals = plan.get("nvals", 3)
                 sim = sims[v]
                 sim.attach(ezsp)
                 ezsp._switch_protocol_version(v)
@@ -265,6 +268,8 @@ def long_plans(draw):
     plan = {"v": v, "period": period, "seq": seq[:n]}
     if period == 180 and draw(st.integers(0, 3)) == 0:
         plan["counter0"] = draw(st.sampled_from([2 ** 16 - 100, 2 ** 32 - 100, 179, 180 * 364]))
+    if draw(st.integers(0, 2)) == 0:
+        plan["nvals"] = draw(st.sampled_from([0, 1, 40, 41, 42, 43, 64, 100]))
     if draw(st.booleans()):
         plan["between"] = draw(st.lists(st.sampled_from([None, None, None, "msg", "sent", "status", "cmd"]), min_size=n, max_size=n))
     return plan
@@ -344,6 +349,17 @@ def _worker_wrap(ctx, job):
             ctx.check(plan, check(plan), sample=(n == 256 // per_feed - 1 and run == 1))
 
 
+def _worker_nvals(ctx, job):
+    """The counter read is answered with fewer or more counters than the host's table names: an answered keep-alive is a
+    successful feed whatever the length of the list."""
+    v, nvals = job
+    fail = "timeout@counters"
+    for seq in (["ok"] * 4, ["ok", fail, fail, fail, fail, "ok", "ok"], [fail] * 5 + ["ok"], ["ok", "ok:badstatus@buffers"] * 4):
+        for period in (180, 3):
+            plan = {"v": v, "seq": seq, "nvals": nvals, "period": period}
+            ctx.check(plan, check(plan), sample=(nvals == 42 and period == 3 and len(seq) == 4))
+
+
 def _worker_long(ctx, n):
     ctx.search(long_plans(), check, max_examples=n)
 
@@ -364,4 +380,5 @@ def run(ctx):
     ctx.parallel(_worker_misc, [(v, what) for v in (4, 8, 14) for what in ("switch", "counter")])
     ctx.parallel(_worker_vswitch, [(8, 4), (4, 8), (13, 4), (4, 14), (14, 4)])
     ctx.parallel(_worker_wrap, [(4, f) for f in OUT4[1:]] + [(v, f) for v in (8, 14) for f in OUTN[1:5]])
+    ctx.parallel(_worker_nvals, [(v, n) for v in (7, 8, 14) for n in (0, 1, 39, 40, 41, 42, 43, 64, 200)])
     ctx.parallel(_worker_long, [12] * 16 if quick else [300] * 16)
